@@ -525,12 +525,13 @@ fn check_layout(ctx: &Ctx, spec: &Spec, seed: u64, n_states: usize) {
     ctx.merge(b);
 }
 
-/// SE2 / SE3 vs the explicit compound, bit for bit on every operation.
-fn check_se(ctx: &Ctx, se3: bool, w: f64, bounds: Option<Vec<(f64, f64)>>, seed: u64, n_states: usize) {
-    let mut r = Sm::derive(seed, &[1313, se3 as u64, w.to_bits()]);
-    let mut b = Batch::default();
-    let label = if se3 { "SE3" } else { "SE2" };
-    let spec = if se3 {
+/// SE2 / SE3 under test (typed interface), wrapped into Ops over flat states.
+enum Se {
+    Two(SE2StateSpace),
+    Three(SE3StateSpace),
+}
+fn se_spec(se3: bool, w: f64, bounds: &Option<Vec<(f64, f64)>>) -> Spec {
+    if se3 {
         Spec {
             wrap: Wrap::Compound,
             comps: vec![
@@ -546,12 +547,67 @@ fn check_se(ctx: &Ctx, se3: bool, w: f64, bounds: Option<Vec<(f64, f64)>>, seed:
                 Comp { kind: CK::So2 { bounds: bounds.as_ref().map(|v| v[2]) }, weight: w, frac: None },
             ],
         }
-    };
-    // the space under test, wrapped into Ops over flat states
-    enum Se {
-        Two(SE2StateSpace),
-        Three(SE3StateSpace),
     }
+}
+fn flat(s: &dyn oxmpl::base::state::State) -> Vec<f64> {
+    let mut f = vec![];
+    flatten_dyn(s, &mut f);
+    f
+}
+fn se_ops<'a>(se: &'a Se, spec: &'a Spec) -> Ops<'a> {
+    let mk2 = move |v: &[f64]| SE2State(compound_state(spec, v));
+    let mk3 = move |v: &[f64]| SE3State(compound_state(spec, v));
+    Ops {
+        distance: Box::new(move |a, bb| match se {
+            Se::Two(s) => s.distance(&mk2(a), &mk2(bb)),
+            Se::Three(s) => s.distance(&mk3(a), &mk3(bb)),
+        }),
+        interpolate: Box::new(move |a, bb, t, scratch| match se {
+            Se::Two(s) => {
+                let mut o = mk2(scratch);
+                s.interpolate(&mk2(a), &mk2(bb), t, &mut o);
+                flat(&o)
+            }
+            Se::Three(s) => {
+                let mut o = mk3(scratch);
+                s.interpolate(&mk3(a), &mk3(bb), t, &mut o);
+                flat(&o)
+            }
+        }),
+        enforce: Box::new(move |a| match se {
+            Se::Two(s) => {
+                let mut o = mk2(a);
+                s.enforce_bounds(&mut o);
+                flat(&o)
+            }
+            Se::Three(s) => {
+                let mut o = mk3(a);
+                s.enforce_bounds(&mut o);
+                flat(&o)
+            }
+        }),
+        satisfies: Box::new(move |a| match se {
+            Se::Two(s) => s.satisfies_bounds(&mk2(a)),
+            Se::Three(s) => s.satisfies_bounds(&mk3(a)),
+        }),
+        sample: Box::new(move |rng| match se {
+            Se::Two(s) => s.sample_uniform(rng).map(|x| flat(&x)).map_err(|e| format!("{e:?}")),
+            Se::Three(s) => s.sample_uniform(rng).map(|x| flat(&x)).map_err(|e| format!("{e:?}")),
+        }),
+        lvs: match se {
+            Se::Two(s) => s.get_longest_valid_segment_length(),
+            Se::Three(s) => s.get_longest_valid_segment_length(),
+        },
+    }
+}
+
+/// SE2 / SE3 vs the explicit compound, bit for bit on every operation.
+fn check_se(ctx: &Ctx, se3: bool, w: f64, bounds: Option<Vec<(f64, f64)>>, seed: u64, n_states: usize) {
+    let mut r = Sm::derive(seed, &[1313, se3 as u64, w.to_bits()]);
+    let mut b = Batch::default();
+    let label = if se3 { "SE3" } else { "SE2" };
+    let spec = se_spec(se3, w, &bounds);
+    // the space under test, wrapped into Ops over flat states
     let se = if se3 {
         match SE3StateSpace::new(w, bounds.clone()) {
             Ok(s) => Se::Three(s),
@@ -569,55 +625,7 @@ fn check_se(ctx: &Ctx, se3: bool, w: f64, bounds: Option<Vec<(f64, f64)>>, seed:
             }
         }
     };
-    let mk2 = |v: &[f64]| SE2State(compound_state(&spec, v));
-    let mk3 = |v: &[f64]| SE3State(compound_state(&spec, v));
-    let fl = |s: &dyn oxmpl::base::state::State| {
-        let mut f = vec![];
-        flatten_dyn(s, &mut f);
-        f
-    };
-    let ops = Ops {
-        distance: Box::new(|a, bb| match &se {
-            Se::Two(s) => s.distance(&mk2(a), &mk2(bb)),
-            Se::Three(s) => s.distance(&mk3(a), &mk3(bb)),
-        }),
-        interpolate: Box::new(|a, bb, t, scratch| match &se {
-            Se::Two(s) => {
-                let mut o = mk2(scratch);
-                s.interpolate(&mk2(a), &mk2(bb), t, &mut o);
-                fl(&o)
-            }
-            Se::Three(s) => {
-                let mut o = mk3(scratch);
-                s.interpolate(&mk3(a), &mk3(bb), t, &mut o);
-                fl(&o)
-            }
-        }),
-        enforce: Box::new(|a| match &se {
-            Se::Two(s) => {
-                let mut o = mk2(a);
-                s.enforce_bounds(&mut o);
-                fl(&o)
-            }
-            Se::Three(s) => {
-                let mut o = mk3(a);
-                s.enforce_bounds(&mut o);
-                fl(&o)
-            }
-        }),
-        satisfies: Box::new(|a| match &se {
-            Se::Two(s) => s.satisfies_bounds(&mk2(a)),
-            Se::Three(s) => s.satisfies_bounds(&mk3(a)),
-        }),
-        sample: Box::new(|rng| match &se {
-            Se::Two(s) => s.sample_uniform(rng).map(|x| fl(&x)).map_err(|e| format!("{e:?}")),
-            Se::Three(s) => s.sample_uniform(rng).map(|x| fl(&x)).map_err(|e| format!("{e:?}")),
-        }),
-        lvs: match &se {
-            Se::Two(s) => s.get_longest_valid_segment_length(),
-            Se::Three(s) => s.get_longest_valid_segment_length(),
-        },
-    };
+    let ops = se_ops(&se, &spec);
     check_law(ctx, &mut b, &mut r, &spec, &ops, label, n_states);
     // and bit for bit against the explicit CompoundStateSpace
     if let Ok(csp) = build_compound(&spec) {
@@ -641,6 +649,389 @@ fn check_se(ctx: &Ctx, se3: bool, w: f64, bounds: Option<Vec<(f64, f64)>>, seed:
         }
     }
     b.count(&format!("se_settings[{label}]"), 1);
+    ctx.merge(b);
+}
+
+
+// ------------------------------------------------------------------------------------------
+// Nested compounds: a component of a compound may itself be a compound, an SE2 or an SE3
+// space (every `StateSpace` is an `AnyStateSpace`). The law is the same at every level; the
+// parent reaches such a child through the erased (`_dyn`) interface with a `CompoundState` /
+// `SE2State` / `SE3State` behind the `dyn State`.
+// ------------------------------------------------------------------------------------------
+#[derive(Clone, Debug)]
+enum NK {
+    Leaf(Comp),
+    Group(Vec<Node>),
+    Se(bool, f64, Option<Vec<(f64, f64)>>),
+}
+#[derive(Clone, Debug)]
+struct Node {
+    kind: NK,
+    /// weight of this node inside its parent (unused for the root)
+    weight: f64,
+}
+impl Node {
+    fn leaves(&self, out: &mut Vec<Comp>) {
+        match &self.kind {
+            NK::Leaf(c) => out.push(c.clone()),
+            NK::Group(ch) => ch.iter().for_each(|c| c.leaves(out)),
+            NK::Se(se3, w, b) => out.extend(se_spec(*se3, *w, b).comps),
+        }
+    }
+    fn describe(&self) -> String {
+        match &self.kind {
+            NK::Leaf(c) => Spec { wrap: Wrap::Compound, comps: vec![c.clone()] }.describe(),
+            NK::Group(ch) => format!("Group[{}]", ch.iter().map(|c| format!("{}*{}", c.weight, c.describe())).collect::<Vec<_>>().join(", ")),
+            NK::Se(se3, w, b) => format!("{}(w={w},{})", if *se3 { "SE3" } else { "SE2" }, if b.is_some() { "bounded" } else { "unbounded" }),
+        }
+    }
+}
+enum BuiltSp {
+    Leaf(CompSp, CK),
+    Group(CompoundStateSpace, Vec<Built>),
+    Se(Se, Spec),
+}
+struct Built {
+    sp: BuiltSp,
+    weight: f64,
+    width: usize,
+}
+impl Built {
+    fn new(n: &Node) -> Result<Built, String> {
+        let sp = match &n.kind {
+            NK::Leaf(c) => BuiltSp::Leaf(CompSp::build(c)?, c.kind.clone()),
+            NK::Group(ch) => {
+                let kids = ch.iter().map(Built::new).collect::<Result<Vec<_>, _>>()?;
+                let subs = ch.iter().map(Built::erased).collect::<Result<Vec<_>, _>>()?;
+                BuiltSp::Group(CompoundStateSpace::new(subs, ch.iter().map(|c| c.weight).collect()), kids)
+            }
+            NK::Se(se3, w, b) => BuiltSp::Se(
+                if *se3 {
+                    Se::Three(SE3StateSpace::new(*w, b.clone()).map_err(|e| format!("{e:?}"))?)
+                } else {
+                    Se::Two(SE2StateSpace::new(*w, b.clone()).map_err(|e| format!("{e:?}"))?)
+                },
+                se_spec(*se3, *w, b),
+            ),
+        };
+        let mut l = vec![];
+        n.leaves(&mut l);
+        Ok(Built { sp, weight: n.weight, width: l.iter().map(|c| c.kind.width()).sum() })
+    }
+    /// the space as the parent holds it
+    fn erased(n: &Node) -> Result<Box<dyn AnyStateSpace>, String> {
+        Ok(match &n.kind {
+            NK::Leaf(c) => crate::spec::build_comp(c)?,
+            NK::Group(ch) => Box::new(CompoundStateSpace::new(ch.iter().map(Built::erased).collect::<Result<Vec<_>, _>>()?, ch.iter().map(|c| c.weight).collect())),
+            NK::Se(true, w, b) => Box::new(SE3StateSpace::new(*w, b.clone()).map_err(|e| format!("{e:?}"))?),
+            NK::Se(false, w, b) => Box::new(SE2StateSpace::new(*w, b.clone()).map_err(|e| format!("{e:?}"))?),
+        })
+    }
+    fn state(&self, v: &[f64]) -> Box<dyn oxmpl::base::state::State> {
+        match &self.sp {
+            BuiltSp::Leaf(_, k) => crate::spec::comp_state(k, v),
+            BuiltSp::Group(..) => Box::new(self.cstate(v)),
+            BuiltSp::Se(Se::Two(_), spec) => Box::new(SE2State(compound_state(spec, v))),
+            BuiltSp::Se(Se::Three(_), spec) => Box::new(SE3State(compound_state(spec, v))),
+        }
+    }
+    fn cstate(&self, v: &[f64]) -> oxmpl::base::state::CompoundState {
+        let BuiltSp::Group(_, kids) = &self.sp else { unreachable!() };
+        let mut comps = vec![];
+        let mut o = 0;
+        for k in kids {
+            comps.push(k.state(&v[o..o + k.width]));
+            o += k.width;
+        }
+        oxmpl::base::state::CompoundState { components: comps }
+    }
+    /// typed operations of this node's own space
+    fn distance(&self, a: &[f64], b: &[f64]) -> f64 {
+        match &self.sp {
+            BuiltSp::Leaf(c, _) => c.distance(a, b),
+            BuiltSp::Group(sp, _) => sp.distance(&self.cstate(a), &self.cstate(b)),
+            BuiltSp::Se(se, spec) => (se_ops(se, spec).distance)(a, b),
+        }
+    }
+    fn interpolate(&self, a: &[f64], b: &[f64], t: f64, scratch: &[f64]) -> Vec<f64> {
+        match &self.sp {
+            BuiltSp::Leaf(c, _) => c.interpolate(a, b, t),
+            BuiltSp::Group(sp, _) => {
+                let mut o = self.cstate(scratch);
+                sp.interpolate(&self.cstate(a), &self.cstate(b), t, &mut o);
+                flat(&o)
+            }
+            BuiltSp::Se(se, spec) => (se_ops(se, spec).interpolate)(a, b, t, scratch),
+        }
+    }
+    fn enforce(&self, a: &[f64]) -> Vec<f64> {
+        match &self.sp {
+            BuiltSp::Leaf(c, _) => c.enforce(a),
+            BuiltSp::Group(sp, _) => {
+                let mut o = self.cstate(a);
+                sp.enforce_bounds(&mut o);
+                flat(&o)
+            }
+            BuiltSp::Se(se, spec) => (se_ops(se, spec).enforce)(a),
+        }
+    }
+    fn satisfies(&self, a: &[f64]) -> bool {
+        match &self.sp {
+            BuiltSp::Leaf(c, _) => c.satisfies(a),
+            BuiltSp::Group(sp, _) => sp.satisfies_bounds(&self.cstate(a)),
+            BuiltSp::Se(se, spec) => (se_ops(se, spec).satisfies)(a),
+        }
+    }
+    fn sample(&self, rng: &mut ChaCha8Rng) -> Result<Vec<f64>, String> {
+        match &self.sp {
+            BuiltSp::Leaf(c, _) => c.sample(rng),
+            BuiltSp::Group(sp, _) => sp.sample_uniform(rng).map(|s| flat(&s)).map_err(|e| format!("{e:?}")),
+            BuiltSp::Se(se, spec) => (se_ops(se, spec).sample)(rng),
+        }
+    }
+    fn lvs(&self) -> f64 {
+        match &self.sp {
+            BuiltSp::Leaf(c, _) => c.lvs(),
+            BuiltSp::Group(sp, _) => sp.get_longest_valid_segment_length(),
+            BuiltSp::Se(se, spec) => se_ops(se, spec).lvs,
+        }
+    }
+}
+
+/// The composition law at one group of a nested layout (and, recursively, at its sub-groups):
+/// the group's operation vs its children's own operations. `erased` runs the group itself
+/// through the `_dyn` interface as well.
+fn check_group(ctx: &Ctx, b: &mut Batch, r: &mut Sm, g: &Built, tree: &str, states: &[Vec<f64>], depth: usize, erased: bool) {
+    let BuiltSp::Group(sp, kids) = &g.sp else { return };
+    let mut offs = vec![];
+    let mut acc = 0;
+    for k in kids {
+        offs.push(acc);
+        acc += k.width;
+    }
+    let label = if erased { "nested-dyn" } else { "nested" };
+    let rep = |sig: &str, detail: String, a: &[f64], bb: &[f64], t: f64| {
+        ctx.violate(&format!("{sig}:{label}"), detail, json!({"kind":"nested","tree":tree,"depth":depth,"a":fjs(a),"b":fjs(bb),"t":fj(t),"via":label}));
+    };
+    let sl = |v: &[f64], i: usize| v[offs[i]..offs[i] + kids[i].width].to_vec();
+    let terms: Vec<f64> = kids.iter().map(|k| k.lvs() * k.weight).collect();
+    let got_lvs = if erased { sp.get_longest_valid_segment_length_dyn() } else { sp.get_longest_valid_segment_length() };
+    b.evaluations += 1;
+    let (ok, want) = wnorm_matches(got_lvs, &terms);
+    if !ok {
+        rep("resolution-law", format!("longest valid segment {got_lvs} != sqrt(sum (w_i lvs_i)^2) = {want}"), &[], &[], 0.0);
+    }
+    for (ia, a) in states.iter().enumerate() {
+        b.evaluations += 1;
+        let sa = g.cstate(a);
+        let enf = match guarded(|| {
+            let mut o = g.cstate(a);
+            if erased {
+                sp.enforce_bounds_dyn(&mut o);
+            } else {
+                sp.enforce_bounds(&mut o);
+            }
+            flat(&o)
+        }) {
+            Ok(x) => x,
+            Err(e) => {
+                rep("panic", e.short(), a, &[], 0.0);
+                continue;
+            }
+        };
+        let mut want = vec![];
+        let mut want_sat = true;
+        for (i, k) in kids.iter().enumerate() {
+            want.extend(k.enforce(&sl(a, i)));
+            want_sat &= k.satisfies(&sl(a, i));
+        }
+        if !bits_eq(&enf, &want) {
+            rep("enforce-not-componentwise", format!("group {enf:?} children {want:?}"), a, &[], 0.0);
+        }
+        let sat = if erased { sp.satisfies_bounds_dyn(&sa) } else { sp.satisfies_bounds(&sa) };
+        if sat != want_sat {
+            rep("satisfies-not-componentwise", format!("group {sat} children {want_sat}"), a, &[], 0.0);
+        }
+        for k in 0..4 {
+            let mut mixed;
+            let bb: &Vec<f64> = if k < 3 {
+                &states[(ia * 7 + k * 13 + 1) % states.len()]
+            } else {
+                // a partner that coincides with `a` in all children but one
+                let other = &states[(ia * 5 + k) % states.len()];
+                let ci = (ia + k) % kids.len();
+                mixed = a.clone();
+                mixed[offs[ci]..offs[ci] + kids[ci].width].copy_from_slice(&other[offs[ci]..offs[ci] + kids[ci].width]);
+                &mixed
+            };
+            b.evaluations += 1;
+            let sb = g.cstate(bb);
+            let res = guarded(|| if erased { sp.distance_dyn(&sa, &sb) } else { sp.distance(&sa, &sb) });
+            let d = match res {
+                Ok(d) => d,
+                Err(e) => {
+                    rep("panic", e.short(), a, bb, 0.0);
+                    continue;
+                }
+            };
+            let terms: Vec<f64> = kids.iter().enumerate().map(|(i, k)| k.distance(&sl(a, i), &sl(bb, i)) * k.weight).collect();
+            let (ok, want_d) = wnorm_matches(d, &terms);
+            if !ok {
+                rep("distance-law", format!("group distance {d} != sqrt(sum (w_i d_i)^2) = {want_d}"), a, bb, 0.0);
+            }
+            let scratch = &states[(ia * 11 + k * 3 + 5) % states.len()];
+            for t in [0.0, r.f(), 1.0, 1.25] {
+                let it = match guarded(|| {
+                    let mut o = g.cstate(scratch);
+                    if erased {
+                        sp.interpolate_dyn(&sa, &sb, t, &mut o);
+                    } else {
+                        sp.interpolate(&sa, &sb, t, &mut o);
+                    }
+                    flat(&o)
+                }) {
+                    Ok(x) => x,
+                    Err(e) => {
+                        rep("panic", e.short(), a, bb, t);
+                        continue;
+                    }
+                };
+                let mut want = vec![];
+                for (i, k) in kids.iter().enumerate() {
+                    want.extend(k.interpolate(&sl(a, i), &sl(bb, i), t, &sl(scratch, i)));
+                }
+                if !bits_eq(&it, &want) {
+                    rep("interpolate-not-componentwise", format!("group {it:?} children {want:?}"), a, bb, t);
+                }
+            }
+            if terms.iter().any(|x| *x != 0.0) {
+                b.distinct.insert(hash_f64s(hash_f64s(hash_f64s(FNV0, &[depth as f64, kids.len() as f64, 0.5]), a), bb));
+            }
+            b.count("nested_pair_checks", 1);
+        }
+    }
+    // sampling: the group's sample must be the children's own samples drawn in some fixed order
+    // (bit for bit); where no order reproduces it the weaker form is judged: every child's part
+    // lies within that child's bounds, and the outcome (error or not) agrees with the children
+    let child_errs: Vec<bool> = kids.iter().map(|k| (0..4u64).all(|s| k.sample(&mut ChaCha8Rng::seed_from_u64(90 + s)).is_err())).collect();
+    let perms = permutations(kids.len());
+    let mut alive = vec![true; perms.len()];
+    let mut oks = 0u64;
+    let mut out_of_bounds: Option<String> = None;
+    'seeds: for s in 0..6u64 {
+        let mut r1 = ChaCha8Rng::seed_from_u64(2000 + s);
+        let mut rp: Vec<ChaCha8Rng> = perms.iter().map(|_| ChaCha8Rng::seed_from_u64(2000 + s)).collect();
+        for _ in 0..3 {
+            b.evaluations += 1;
+            let got = guarded(|| if erased { sp.sample_uniform_dyn(&mut r1).map(|x| flat(&*x)).map_err(|e| format!("{e:?}")) } else { sp.sample_uniform(&mut r1).map(|x| flat(&x)).map_err(|e| format!("{e:?}")) });
+            let got = match got {
+                Ok(g) => g,
+                Err(e) => {
+                    rep("panic", e.short(), &[], &[], 0.0);
+                    break 'seeds;
+                }
+            };
+            match got {
+                Err(e) => {
+                    if !child_errs.iter().any(|x| *x) {
+                        rep("sample-outcome-differs", format!("group sampling fails with {e} although every child samples fine"), &[], &[], 0.0);
+                    }
+                    break 'seeds;
+                }
+                Ok(gv) => {
+                    if child_errs.iter().any(|x| *x) {
+                        rep("sample-outcome-differs", format!("group sampling succeeds ({gv:?}) although a child cannot be sampled"), &[], &[], 0.0);
+                        break 'seeds;
+                    }
+                    oks += 1;
+                    for (i, k) in kids.iter().enumerate() {
+                        if !k.satisfies(&sl(&gv, i)) {
+                            out_of_bounds = Some(format!("child {i} of the group sample {gv:?} is outside that child's bounds"));
+                        }
+                    }
+                    for (pi, p) in perms.iter().enumerate() {
+                        if !alive[pi] {
+                            continue;
+                        }
+                        let mut want = vec![0.0; gv.len()];
+                        let mut ok = true;
+                        for &ci in p {
+                            match kids[ci].sample(&mut rp[pi]) {
+                                Ok(v) => want[offs[ci]..offs[ci] + kids[ci].width].copy_from_slice(&v),
+                                Err(_) => ok = false,
+                            }
+                        }
+                        if !ok || !bits_eq(&gv, &want) {
+                            alive[pi] = false;
+                        }
+                    }
+                }
+            }
+        }
+    }
+    if oks > 0 {
+        if alive.iter().any(|x| *x) {
+            b.count("nested_sample_checks_bit_exact", oks);
+        } else if let Some(d) = out_of_bounds {
+            rep("sample-not-componentwise", format!("no order of child draws reproduces the group sample bit for bit, and {d}"), &[], &[], 0.0);
+        } else {
+            b.count("nested_sample_checks_bounds_only", oks);
+        }
+    }
+    b.count(&format!("nested_groups[depth {depth}]"), 1);
+    if !erased {
+        for (i, k) in kids.iter().enumerate() {
+            if matches!(k.sp, BuiltSp::Group(..)) {
+                let sub: Vec<Vec<f64>> = states.iter().map(|s| sl(s, i)).collect();
+                check_group(ctx, b, r, k, tree, &sub, depth + 1, false);
+            }
+        }
+    }
+}
+
+fn random_tree(r: &mut Sm, ks: &[CK], depth: usize) -> Node {
+    let weights = [0.0, 1e-3, 0.3, 1.0, 1.0, 50.0, -0.5];
+    let roll = r.below(10);
+    let kind = if depth > 0 && roll < 4 {
+        let n = 1 + r.below(3);
+        NK::Group((0..n).map(|_| random_tree(r, ks, depth - 1)).collect())
+    } else if roll < 7 {
+        let se3 = r.bool(0.5);
+        let w = *r.pick(&[0.0, 0.3, 1.0, 2.0]);
+        let b = if r.bool(0.8) {
+            Some(if se3 { vec![(-1.0, 1.0), (0.0, 5.0), (-3.0, -1.0)] } else { vec![(-1.0, 1.0), (0.0, 5.0), *r.pick(&[(-1.0, 2.0), (-PI, PI), (-1.0, 6.0)])] })
+        } else {
+            None
+        };
+        NK::Se(se3, w, b)
+    } else {
+        NK::Leaf(Comp { kind: r.pick(ks).clone(), weight: 1.0, frac: if r.bool(0.3) { Some(r.log_range(0.01, 1.0)) } else { None } })
+    };
+    Node { kind, weight: *r.pick(&weights) }
+}
+
+fn check_nested(ctx: &Ctx, root: &Node, seed: u64, n_states: usize) {
+    let tree = root.describe();
+    let mut r = Sm::derive(seed, &[1314, hash_f64s(FNV0, &tree.bytes().map(|x| x as f64).collect::<Vec<_>>())]);
+    let mut b = Batch::default();
+    let built = match Built::new(root) {
+        Ok(x) => x,
+        Err(e) => {
+            ctx.inconclusive(format!("nested layout not constructible: {e}"));
+            return;
+        }
+    };
+    let mut leaves = vec![];
+    root.leaves(&mut leaves);
+    let flat_spec = Spec { wrap: Wrap::Compound, comps: leaves };
+    let states = states_for(&mut r, &flat_spec, n_states);
+    check_group(ctx, &mut b, &mut r, &built, &tree, &states, 0, false);
+    check_group(ctx, &mut b, &mut r, &built, &tree, &states[..states.len() / 2], 0, true);
+    b.count("nested_layouts", 1);
+    if b.samples.is_empty() {
+        b.sample(json!({"nested_layout": tree}));
+    }
     ctx.merge(b);
 }
 
@@ -695,24 +1086,50 @@ pub fn run(tier: Tier, seed: u64) -> i32 {
         }
         v
     };
-    let total = layouts.len() + se_jobs.len();
+    // nested layouts: a few fixed shapes and random trees up to three levels deep
+    let nested: Vec<Node> = {
+        let leaf = |i: usize, w: f64| Node { kind: NK::Leaf(Comp { kind: ks[i].clone(), weight: 1.0, frac: None }), weight: w };
+        let grp = |ch: Vec<Node>, w: f64| Node { kind: NK::Group(ch), weight: w };
+        let se = |se3: bool, w: f64, bounded: bool, wt: f64| Node {
+            kind: NK::Se(se3, w, if bounded { Some(if se3 { vec![(-1.0, 1.0), (0.0, 5.0), (-3.0, -1.0)] } else { vec![(-1.0, 1.0), (0.0, 5.0), (-1.0, 2.0)] }) } else { None }),
+            weight: wt,
+        };
+        let mut v = vec![
+            grp(vec![leaf(1, 1.0), grp(vec![leaf(4, 1.0), leaf(0, 2.0)], 0.5)], 1.0),
+            grp(vec![grp(vec![leaf(1, 1.0), leaf(6, 0.3)], 1.0), leaf(4, 1.0)], 1.0),
+            grp(vec![se(false, 0.5, true, 1.0), leaf(0, 1.0)], 1.0),
+            grp(vec![leaf(5, 1.0), se(true, 1.0, true, 2.0)], 1.0),
+            grp(vec![grp(vec![se(false, 1.0, true, 1.0), leaf(3, 0.0)], 1.0), grp(vec![leaf(2, 1.0), grp(vec![leaf(4, 1.0), leaf(6, 1.0)], 50.0)], 1e-3)], 1.0),
+            grp(vec![se(true, 0.3, false, 1.0), leaf(1, 1.0)], 1.0),
+            grp(vec![grp(vec![leaf(0, -0.5)], 1.0)], 1.0),
+        ];
+        let mut rr = Sm::derive(seed, &[13, 14]);
+        for _ in 0..tier.pick(40, 600) {
+            let n = 1 + rr.below(3);
+            v.push(grp((0..n).map(|_| random_tree(&mut rr, &ks, 2)).collect(), 1.0));
+        }
+        v
+    };
+    let total = layouts.len() + se_jobs.len() + nested.len();
     par_shards(total, crate::util::n_threads(), |i| {
         if i < layouts.len() {
             check_layout(&ctx, &layouts[i], seed.wrapping_add(i as u64), n_states);
+        } else if i >= layouts.len() + se_jobs.len() {
+            check_nested(&ctx, &nested[i - layouts.len() - se_jobs.len()], seed.wrapping_add(i as u64), tier.pick(30, 60));
         } else {
             let (se3, w, bnd) = &se_jobs[i - layouts.len()];
             check_se(&ctx, *se3, *w, bnd.clone(), seed.wrapping_add(i as u64), tier.pick(200, 2000));
         }
     });
-    for k in ["layouts[1]", "layouts[2]", "layouts[3]", "layouts[4]", "se_settings[SE2]", "se_settings[SE3]", "sample_checks", "se_vs_compound_checks", "pair_checks"] {
+    for k in ["layouts[1]", "layouts[2]", "layouts[3]", "layouts[4]", "se_settings[SE2]", "se_settings[SE3]", "sample_checks", "se_vs_compound_checks", "pair_checks", "nested_layouts", "nested_pair_checks", "nested_groups[depth 1]", "nested_groups[depth 2]", "nested_sample_checks_bit_exact"] {
         ctx.require(k);
     }
     ctx.finish(
-        "cases = operations (distance, interpolate at 4 values of t, enforce, satisfies, sample, resolution) on a compound / SE2 / SE3 space compared with the same operation carried out on its typed component spaces; layouts: all ordered 1-2 component layouts over 7 component kinds plus random 3-4 component ones (quick), all 2800 ordered layouts of 1-4 components (thorough); distinct+non-trivial = distinct (layout size, a, b) with some positive component distance",
+        "cases = operations (distance, interpolate at 4 values of t, enforce, satisfies, sample, resolution) on a compound / SE2 / SE3 space compared with the same operation carried out on its typed component spaces; layouts: all ordered 1-2 component layouts over 7 component kinds plus random 3-4 component ones (quick), all 2800 ordered layouts of 1-4 components (thorough); nested layouts (a compound whose components are compounds / SE2 / SE3 spaces, up to three levels; 47 quick, 607 thorough) are judged by the same law at every group, through the typed and the erased interface; distinct+non-trivial = distinct (layout size, a, b) with some positive component distance",
         &[
             "distance and resolution compared to 1e-12 relative, everything else bit for bit",
             "component operations themselves are judged by C09-C12, not here",
         ],
-        json!({"miri": ctx.fold_miri_summary(), "layouts": layouts.len(), "se_settings": se_jobs.len(), "exhaustive_layouts": tier == Tier::Thorough}),
+        json!({"miri": ctx.fold_miri_summary(), "layouts": layouts.len(), "se_settings": se_jobs.len(), "nested_layouts": nested.len(), "exhaustive_layouts": tier == Tier::Thorough}),
     )
 }
